@@ -42,7 +42,9 @@ varint_rt!(q_c01_varint_u16, 6, u16, u16, 2, put_varint_u16_le, try_get_varint_u
 varint_rt!(q_c01_varint_i16, 6, i16, u16, 2, put_varint_i16_le, try_get_varint_i16_le, |v| ((v << 1) ^ (v >> 15)) as u16);
 varint_rt!(q_c01_varint_u32, 8, u32, u32, 4, put_varint_u32_le, try_get_varint_u32_le, |v| v);
 varint_rt!(q_c01_varint_i32, 8, i32, u32, 4, put_varint_i32_le, try_get_varint_i32_le, |v| ((v << 1) ^ (v >> 31)) as u32);
+#[cfg(not(verif_quick))]
 varint_rt!(q_c01_varint_u64, 12, u64, u64, 8, put_varint_u64_le, try_get_varint_u64_le, |v| v);
+#[cfg(not(verif_quick))]
 varint_rt!(q_c01_varint_i64, 12, i64, u64, 8, put_varint_i64_le, try_get_varint_i64_le, |v| ((v << 1) ^ (v >> 63)) as u64);
 
 /// Zigzag is a bijection and maps small magnitudes to small codes (checked through the
@@ -78,6 +80,7 @@ macro_rules! zigzag_laws {
 
 zigzag_laws!(q_c01_zigzag_i16, 6, i16, u16, put_varint_i16_le, put_varint_u16_le, try_get_varint_i16_le);
 zigzag_laws!(q_c01_zigzag_i32, 8, i32, u32, put_varint_i32_le, put_varint_u32_le, try_get_varint_i32_le);
+#[cfg(not(verif_quick))]
 zigzag_laws!(q_c01_zigzag_i64, 12, i64, u64, put_varint_i64_le, put_varint_u64_le, try_get_varint_i64_le);
 
 /// Arbitrary bytes: try_get_varint and try_skip_varint never panic, consume the same number of
@@ -115,6 +118,7 @@ macro_rules! varint_total {
 
 varint_total!(q_c07_varint_total_u16, 6, 2, try_get_varint_u16_le, [0, 1, 2, 3, 4]);
 varint_total!(q_c07_varint_total_u32, 8, 4, try_get_varint_u32_le, [0, 1, 2, 3, 4, 5, 6]);
+#[cfg(not(verif_quick))]
 varint_total!(q_c07_varint_total_u64, 12, 8, try_get_varint_u64_le, [0, 1, 2, 5, 8, 9, 10]);
 
 #[cfg(verif_replay)]
